@@ -54,7 +54,7 @@ ASSUMPTIONS = ["reference evaluators of vmc/gen_dag.py (bound > keyword > upstre
                "simplified_pipeline must retain the requested output; which other outputs it retains is read from the result",
                "states with equal canonical form and equal model have equal futures (fresh names are functions of the current name, not of the step)",
                "work units of one base share no visited set: `states` sums per-unit counts, `states_distinct` is the number of distinct (base, state) pairs"]
-BUDGET = {"quick": 75.0, "thorough": 1800.0}
+BUDGET = {"quick": 150.0, "thorough": 3000.0}
 
 AXIS_SIZES = {"k0": 2, "k1": 3, "k2": 2}
 NONMUTATING = ("copy", "pickle", "join", "simplify", "split")
